@@ -195,6 +195,11 @@ def call_assemble(vcls, mclss, vrec, mrecs, id_, name, fault=None, prequery=Fals
 def transform_spec(spec, by, arg=None):
     """twin of an input record spec: rotated / reverse-complemented / re-cased (features dropped for rc/rot)"""
     s = dict(spec)
+    if "plasmid" in spec:
+        if by == "rot":
+            s["_rotate_api"] = arg
+            return s
+        raise ValueError("registry plasmids are only rotated")
     seq = spec["seq"]
     n = len(seq)
     if by == "rot":
@@ -220,6 +225,12 @@ def build_inputs(r):
              for i in range(len(r["modules"]))]
 
     def mk(spec):
+        if "plasmid" in spec:          # a plasmid of an embedded registry, with its own annotations
+            from . import registries
+            rec = copy.deepcopy(registries.item(spec["plasmid"]["reg"], spec["plasmid"]["key"]).entity.record)
+            if spec.get("_rotate_api"):
+                rec = rec >> spec["_rotate_api"]
+            return rec
         rec = mk_record(spec)
         if spec.get("_rotate_api"):
             rec = rec >> spec["_rotate_api"]
@@ -273,6 +284,9 @@ def exec_assembly(r):
         elif by == "swap":
             r2["modules"] = list(r["modules"])
             r2["modules"][tw["pos"]] = tw["mod"]
+            if r.get("mcls") and r.get("mcls_swap"):
+                r2["mcls"] = list(r["mcls"])
+                r2["mcls"][tw["pos"]] = r["mcls_swap"]
         vc2, mc2, vr2, mr2 = build_inputs(r2)
         out2 = call_assemble(vc2, mc2, vr2, mr2, r2.get("id"), r2.get("name"), None)
         out2.pop("_product", None)
